@@ -478,6 +478,8 @@ pub fn accepts(prop: &str, v: &Viol, ops: &[OpRec]) -> bool {
                 "recv_after_disconnect",
                 "recv_after_failed_send",
             ]) || (p == "stuck_illegit" && v.detail.contains("handle is left"))
+                // the drop of a handle (last of its side or not) must itself return
+                || ((p == "livelock" || p == "waited_inside_critical_section") && opk.map(|o| o.k == K::DropH).unwrap_or(false))
                 // an operation that was in flight while a handle of the other side was dropped must
                 // end with an error or a genuine value, its payload accounted for
                 || ((in_list(LEDGER_ALL) || p == "corrupt_value")
@@ -511,6 +513,14 @@ pub fn accepts(prop: &str, v: &Viol, ops: &[OpRec]) -> bool {
             in_list(&["timeout_early", "uaf"])
                 || (in_list(LEDGER_ALL) && opk.map(|o| o.k.is_timed()).unwrap_or(false))
                 || (p == "stuck_illegit" && opk.map(|o| o.k.is_timed()).unwrap_or(false))
+                // zero-sized payloads are accounted by count only (no operation to blame): the
+                // imbalance is this property's when a timed send of the program timed out
+                || (in_list(LEDGER_ALL)
+                    && opk.is_none()
+                    && v.detail.starts_with("zero-sized payloads")
+                    && ops.iter().any(|o| o.k.is_timed() && o.k.is_send() && o.res == Res::Err(crate::interp::E::Timeout)))
+                // a timed operation that spins for ever never reports its outcome
+                || ((p == "livelock" || p == "waited_inside_critical_section") && opk.map(|o| o.k.is_timed()).unwrap_or(false))
                 || in_list(&["quiescent_try_send_mismatch", "quiescent_try_recv_mismatch", "quiescent_drain_mismatch"])
         }
         "C14" => {
@@ -531,6 +541,9 @@ pub fn accepts(prop: &str, v: &Viol, ops: &[OpRec]) -> bool {
         "C15" => {
             in_list(&["uaf", "fifo", "receiver_order", "dup_recv", "corrupt_value", "drop_of_unknown_value"])
                 || (in_list(LEDGER_ALL) && opk.map(|o| o.k.is_async()).unwrap_or(false))
+                // "dropping a future is safe": a drop that never returns is not
+                || ((p == "livelock" || p == "waited_inside_critical_section")
+                    && opk.map(|o| o.k.is_async() && o.dropping).unwrap_or(false))
         }
         "C16" => in_list(&[
             "stale_waker",
